@@ -107,15 +107,27 @@ theorem eval_bin (k : BinKind) (hk : isValOp k = true) (a b : Card) :
 theorem eval_readVar (n : String) : Sem.eval cx (f + 1) env s (.readVar n) = Sem.readVar cx env s n := rfl
 end semeq
 
-theorem readVar_global {cx : Sem.Ctx} (hout : cx.outer = []) {n : String} (hn : simpleName n = true) (s : Sem.St) :
-    Sem.readVar cx [[]] s n = (s, [[]], match glookup s.globals n with
+/-- an environment without locals (scopes that declare nothing) -/
+def NoEnv (env : Sem.Env) : Prop := ∀ n, Sem.lookupEnv env n = none
+
+theorem noEnv_base : NoEnv [[]] := fun _ => rfl
+
+theorem noEnv_cons {env : Sem.Env} (h : NoEnv env) : NoEnv ([] :: env) := fun n => by
+  have := h n
+  unfold Sem.lookupEnv at this ⊢
+  rw [List.findSome?_cons]
+  exact this
+
+theorem readVar_global {cx : Sem.Ctx} (hout : cx.outer = []) {env : Sem.Env} (henv : NoEnv env) {n : String}
+    (hn : simpleName n = true) (s : Sem.St) :
+    Sem.readVar cx env s n = (s, env, match glookup s.globals n with
       | some x => .ok x
       | none => .unspecified "read of a global that was never written") := by
   simp only [simpleName, Bool.and_eq_true, decide_eq_true_eq, Bool.not_eq_true'] at hn
   obtain ⟨hsplit, hne⟩ := hn
+  have hnone : Sem.lookupEnv [] n = none := rfl
   unfold Sem.readVar
-  simp only [hsplit, List.filter_nil, hne, Bool.false_eq_true, if_false, hout, Sem.lookupEnv, List.findSome?_cons,
-    List.findSome?_nil, List.reverse_nil, List.find?_nil, Option.map_none, List.foldl_nil]
+  simp only [hsplit, List.filter_nil, hne, Bool.false_eq_true, if_false, hout, henv n, hnone, List.foldl_nil]
   unfold glookup
   rcases hfind : List.find? (fun p => p.fst == n) s.globals with _ | ⟨a, b⟩ <;> simp only [hfind] <;> rfl
 
@@ -176,10 +188,10 @@ section sim
 variable {P : Prog} {F : List (UInt32 × Nat)} {N : String → Prop} {cx : Sem.Ctx} (hout : cx.outer = [])
 include hout
 
-theorem eval_sim :
+theorem eval_sim (env : Sem.Env) (henv : NoEnv env) :
     ∀ (e : Card), isExpr e = true → ∀ (fuel : Nat) (σ σ' : Sem.St) (env' : Sem.Env) (v : Val) (pc pc' : Nat),
-      Sem.eval cx fuel [[]] σ e = (σ', env', .ok v) → ECode P.bytecode F e pc pc' → pc' ≤ P.bytecode.size →
-      σ' = σ ∧ env' = [[]] ∧ ∃ n, n ≤ pc' - pc ∧
+      Sem.eval cx fuel env σ e = (σ', env', .ok v) → ECode P.bytecode F e pc pc' → pc' ≤ P.bytecode.size →
+      σ' = σ ∧ env = env' ∧ ∃ n, n ≤ pc' - pc ∧
         ∀ (vs : VmState) (cap : Nat) (stk : List Val), StackIs vs.stack cap stk → stk.length + edepth e < cap →
           GRel F N σ.globals vs.globals →
           Scalar v ∧ ∃ vs', Reach P n pc vs pc' vs' ∧ StackIs vs'.stack cap (v :: stk) ∧ SameRest vs vs' ∧
@@ -243,13 +255,13 @@ theorem eval_sim :
       rw [eval_not] at hev
       simp only [ECode] at hcode
       obtain ⟨m, hc1, hop, rfl⟩ := hcode
-      rcases hc : Sem.eval cx f [[]] σ c with ⟨σ1, env1, r1⟩
+      rcases hc : Sem.eval cx f env σ c with ⟨σ1, env1, r1⟩
       rw [hc] at hev
       cases r1 with
       | ok v1 =>
         simp only [Prod.mk.injEq, Sem.Res.ok.injEq] at hev
         obtain ⟨rfl, rfl, rfl⟩ := hev
-        obtain ⟨rfl, rfl, n1, hn1, hsim1⟩ := eval_sim c he f σ σ1 env1 v1 pc m hc hc1 (by omega)
+        obtain ⟨rfl, rfl, n1, hn1, hsim1⟩ := eval_sim env henv c he f σ σ1 env1 v1 pc m hc hc1 (by omega)
         have hlt := ecode_lt hc1
         refine ⟨rfl, rfl, n1 + 1, by omega, fun vs cap stk hst hroom hg => ?_⟩
         simp only [edepth] at hroom
@@ -274,19 +286,19 @@ theorem eval_sim :
       obtain ⟨m1, m2, hc1, hc2, hop, rfl⟩ := hcode
       have hlt1 := ecode_lt hc1
       have hlt2 := ecode_lt hc2
-      rcases hca : Sem.eval cx f [[]] σ a with ⟨σ1, env1, r1⟩
+      rcases hca : Sem.eval cx f env σ a with ⟨σ1, env1, r1⟩
       rw [hca] at hev
       cases r1 with
       | ok va =>
         simp only at hev
-        obtain ⟨rfl, rfl, n1, hn1, hsim1⟩ := eval_sim a hea f σ σ1 env1 va pc m1 hca hc1 (by omega)
-        rcases hcb : Sem.eval cx f [[]] σ1 b with ⟨σ2, env2, r2⟩
+        obtain ⟨rfl, rfl, n1, hn1, hsim1⟩ := eval_sim env henv a hea f σ σ1 env1 va pc m1 hca hc1 (by omega)
+        rcases hcb : Sem.eval cx f env σ1 b with ⟨σ2, env2, r2⟩
         rw [hcb] at hev
         cases r2 with
         | ok vb =>
           simp only [Prod.mk.injEq, Sem.Res.ok.injEq] at hev
           obtain ⟨rfl, rfl, rfl⟩ := hev
-          obtain ⟨rfl, rfl, n2, hn2, hsim2⟩ := eval_sim b heb f σ1 σ2 env2 vb m1 m2 hcb hc2 (by omega)
+          obtain ⟨rfl, rfl, n2, hn2, hsim2⟩ := eval_sim env henv b heb f σ1 σ2 env2 vb m1 m2 hcb hc2 (by omega)
           refine ⟨rfl, rfl, n1 + n2 + 1, by omega, fun vs cap stk hst hroom hg => ?_⟩
           simp only [edepth] at hroom
           obtain ⟨hsa, vs1, hr1, hst1, hsame1, hg1⟩ := hsim1 vs cap stk hst (by omega) hg
@@ -310,7 +322,7 @@ theorem eval_sim :
     cases fuel with
     | zero => rw [eval_zero] at hev; cases hev
     | succ f =>
-      rw [eval_readVar, readVar_global hout he] at hev
+      rw [eval_readVar, readVar_global hout henv he] at hev
       simp only [ECode] at hcode
       obtain ⟨id, hid, hop, hrd, rfl⟩ := hcode
       rcases hl : glookup σ.globals n with _ | x
@@ -400,9 +412,9 @@ theorem exec_while (c b : Card) :
     (match Sem.eval cx f env s c with
       | (s, env, .ok x) =>
         if Sem.truthy s x then
-          match Sem.exec cx f env s b with
-          | (s, env, .ok ()) => Sem.exec cx f env s (.bin .while c b)
-          | r => r
+          match Sem.exec cx f ([] :: env) s b with
+          | (s, _, .ok ()) => Sem.exec cx f env s (.bin .while c b)
+          | (s, _, r) => (s, env, r)
         else (s, env, .ok ())
       | (s, env, .ret v) => (s, env, .ret v)
       | (s, env, .exit) => (s, env, .exit)
@@ -708,22 +720,22 @@ def VmSim (σ σ' : Sem.St) (pc pc' : Nat) (depth : Nat) (lf : Bool) : Prop :=
 
 /-- the simulation statement for one statement card at fuel `f` -/
 def StmtSim (f : Nat) (c : Card) : Prop :=
-  isStmt c = true → ∀ (σ σ' : Sem.St) (env' : Sem.Env) (pc pc' : Nat),
-    Sem.exec cx f [[]] σ c = (σ', env', .ok ()) → SCode P.bytecode F c pc pc' → pc' ≤ P.bytecode.size →
+  isStmt c = true → ∀ (env : Sem.Env), NoEnv env → ∀ (σ σ' : Sem.St) (env' : Sem.Env) (pc pc' : Nat),
+    Sem.exec cx f env σ c = (σ', env', .ok ()) → SCode P.bytecode F c pc pc' → pc' ≤ P.bytecode.size →
     (∀ n ∈ snames c, N n) →
-      env' = [[]] ∧ σ' = { σ with globals := σ'.globals } ∧ VmSim P F N σ σ' pc pc' (sdepth c) (loopFree c)
+      env = env' ∧ σ' = { σ with globals := σ'.globals } ∧ VmSim P F N σ σ' pc pc' (sdepth c) (loopFree c)
 
 def StmtsSim (f : Nat) (cs : List Card) : Prop :=
-  isStmts cs = true → ∀ (σ σ' : Sem.St) (env' : Sem.Env) (pc pc' : Nat),
-    Sem.execListWith (Sem.exec cx f) [[]] σ cs = (σ', env', .ok ()) → SCodes P.bytecode F cs pc pc' →
+  isStmts cs = true → ∀ (env : Sem.Env), NoEnv env → ∀ (σ σ' : Sem.St) (env' : Sem.Env) (pc pc' : Nat),
+    Sem.execListWith (Sem.exec cx f) env σ cs = (σ', env', .ok ()) → SCodes P.bytecode F cs pc pc' →
     pc' ≤ P.bytecode.size → (∀ n ∈ snamess cs, N n) →
-      env' = [[]] ∧ σ' = { σ with globals := σ'.globals } ∧ VmSim P F N σ σ' pc pc' (sdepths cs) (loopFrees cs)
+      env = env' ∧ σ' = { σ with globals := σ'.globals } ∧ VmSim P F N σ σ' pc pc' (sdepths cs) (loopFrees cs)
 
 variable {P F N cx}
 
 theorem stmts_sim {f : Nat} (ih : ∀ c, StmtSim P F N cx f c) : ∀ cs, StmtsSim P F N cx f cs
   | [] => by
-    intro _ σ σ' env' pc pc' hex hcode _ _
+    intro _ env henv σ σ' env' pc pc' hex hcode _ _
     simp only [Sem.execListWith, Prod.mk.injEq] at hex
     obtain ⟨rfl, rfl, _⟩ := hex
     simp only [SCodes] at hcode
@@ -731,7 +743,7 @@ theorem stmts_sim {f : Nat} (ih : ∀ c, StmtSim P F N cx f c) : ∀ cs, StmtsSi
     exact ⟨rfl, rfl, 0, fun _ => Nat.zero_le _, fun vs cap hst _ hg =>
       ⟨vs, Reach.refl _ _, hst, SameRest.refl _, hg⟩⟩
   | c :: cs => by
-    intro hs σ σ' env' pc pc' hex hcode hsz hN
+    intro hs env henv σ σ' env' pc pc' hex hcode hsz hN
     simp only [isStmts, Bool.and_eq_true] at hs
     simp only [SCodes] at hcode
     obtain ⟨m, hc1, hc2⟩ := hcode
@@ -739,16 +751,16 @@ theorem stmts_sim {f : Nat} (ih : ∀ c, StmtSim P F N cx f c) : ∀ cs, StmtsSi
     have hle2 := scodes_le hs.2 hc2
     have hle1 := scode_le hs.1 hc1
     simp only [Sem.execListWith] at hex
-    rcases hc : Sem.exec cx f [[]] σ c with ⟨σ1, env1, r1⟩
+    rcases hc : Sem.exec cx f env σ c with ⟨σ1, env1, r1⟩
     rw [hc] at hex
     cases r1 with
     | ok u =>
       cases u
       simp only at hex
       obtain ⟨rfl, e1, n1, hn1, hsim1⟩ :=
-        ih c hs.1 σ σ1 env1 pc m hc hc1 (by omega) (fun n hn => hN n (Or.inl hn))
+        ih c hs.1 env henv σ σ1 env1 pc m hc hc1 (by omega) (fun n hn => hN n (Or.inl hn))
       obtain ⟨rfl, e2, n2, hn2, hsim2⟩ :=
-        stmts_sim ih cs hs.2 σ1 σ' env' m pc' hex hc2 hsz (fun n hn => hN n (Or.inr hn))
+        stmts_sim ih cs hs.2 env henv σ1 σ' env' m pc' hex hc2 hsz (fun n hn => hN n (Or.inr hn))
       refine ⟨rfl, by rw [e2, e1], n1 + n2, ?_, fun vs cap hst hd hg => ?_⟩
       · intro hl
         simp only [loopFrees, Bool.and_eq_true] at hl
@@ -770,19 +782,19 @@ variable (hout : cx.outer = []) (hFinj : FInj F) (hNinj : HInj N)
 include hout hFinj hNinj
 
 theorem sim_setGlobal (f : Nat) (n : String) (e : Card) : StmtSim P F N cx (f + 1) (.setGlobalVar n e) := by
-  intro hs σ σ' env' pc pc' hex hcode hsz hN
+  intro hs env henv σ σ' env' pc pc' hex hcode hsz hN
   simp only [isStmt, Bool.and_eq_true, Bool.not_eq_true'] at hs
   obtain ⟨hne, he⟩ := hs
   rw [exec_setGlobal] at hex
   simp only [SCode] at hcode
   obtain ⟨m, id, hc1, hop, hid, hrd, rfl⟩ := hcode
-  rcases hc : Sem.eval cx f [[]] σ e with ⟨σ1, env1, r1⟩
+  rcases hc : Sem.eval cx f env σ e with ⟨σ1, env1, r1⟩
   rw [hc] at hex
   cases r1 with
   | ok x =>
     simp only [hne, Bool.false_eq_true, if_false, Prod.mk.injEq, and_true] at hex
     obtain ⟨rfl, rfl⟩ := hex
-    obtain ⟨rfl, rfl, n1, hn1, hsim1⟩ := eval_sim hout e he f σ σ1 env1 x pc m hc hc1 (by omega)
+    obtain ⟨rfl, rfl, n1, hn1, hsim1⟩ := eval_sim hout env henv e he f σ σ1 env1 x pc m hc hc1 (by omega)
     have hlt := ecode_lt hc1
     refine ⟨rfl, rfl, n1 + 1, fun _ => by omega, fun vs cap hst hd hg => ?_⟩
     simp only [sdepth] at hd
@@ -799,7 +811,7 @@ theorem sim_setGlobal (f : Nat) (n : String) (e : Card) : StmtSim P F N cx (f + 
 omit hFinj hNinj in
 theorem sim_ifTrue (f : Nat) (ih : ∀ c, StmtSim P F N cx f c) (c b : Card) :
     StmtSim P F N cx (f + 1) (.bin .ifTrue c b) := by
-  intro hs σ σ' env' pc pc' hex hcode hsz hN
+  intro hs env henv σ σ' env' pc pc' hex hcode hsz hN
   simp only [isStmt, Bool.and_eq_true] at hs
   obtain ⟨hec, hsb⟩ := hs
   rw [exec_ifTrue] at hex
@@ -807,16 +819,16 @@ theorem sim_ifTrue (f : Nat) (ih : ∀ c, StmtSim P F N cx f c) (c b : Card) :
   obtain ⟨m, hc1, hop, hrd, hc2⟩ := hcode
   have hlt := ecode_lt hc1
   have hle := scode_le hsb hc2
-  rcases hc : Sem.eval cx f [[]] σ c with ⟨σ1, env1, r1⟩
+  rcases hc : Sem.eval cx f env σ c with ⟨σ1, env1, r1⟩
   rw [hc] at hex
   cases r1 with
   | ok x =>
     simp only at hex
-    obtain ⟨rfl, rfl, n1, hn1, hsim1⟩ := eval_sim hout c hec f σ σ1 env1 x pc m hc hc1 (by omega)
+    obtain ⟨rfl, rfl, n1, hn1, hsim1⟩ := eval_sim hout env henv c hec f σ σ1 env1 x pc m hc hc1 (by omega)
     by_cases ht : Sem.truthy σ1 x = true
     · rw [if_pos ht] at hex
       obtain ⟨rfl, e2, n3, hn3, hsim3⟩ :=
-        ih b hsb σ1 σ' env' (m + 5) pc' hex hc2 hsz (fun n hn => hN n (by simpa [snames] using hn))
+        ih b hsb env henv σ1 σ' env' (m + 5) pc' hex hc2 hsz (fun n hn => hN n (by simpa [snames] using hn))
       refine ⟨rfl, e2, n1 + 1 + n3, ?_, fun vs cap hst hd hg => ?_⟩
       · intro hl
         have := hn3 (by simpa [loopFree] using hl)
@@ -844,7 +856,7 @@ theorem sim_ifTrue (f : Nat) (ih : ∀ c, StmtSim P F N cx f c) (c b : Card) :
 omit hFinj hNinj in
 theorem sim_ifFalse (f : Nat) (ih : ∀ c, StmtSim P F N cx f c) (c b : Card) :
     StmtSim P F N cx (f + 1) (.bin .ifFalse c b) := by
-  intro hs σ σ' env' pc pc' hex hcode hsz hN
+  intro hs env henv σ σ' env' pc pc' hex hcode hsz hN
   simp only [isStmt, Bool.and_eq_true] at hs
   obtain ⟨hec, hsb⟩ := hs
   rw [exec_ifFalse] at hex
@@ -852,12 +864,12 @@ theorem sim_ifFalse (f : Nat) (ih : ∀ c, StmtSim P F N cx f c) (c b : Card) :
   obtain ⟨m, hc1, hop, hrd, hc2⟩ := hcode
   have hlt := ecode_lt hc1
   have hle := scode_le hsb hc2
-  rcases hc : Sem.eval cx f [[]] σ c with ⟨σ1, env1, r1⟩
+  rcases hc : Sem.eval cx f env σ c with ⟨σ1, env1, r1⟩
   rw [hc] at hex
   cases r1 with
   | ok x =>
     simp only at hex
-    obtain ⟨rfl, rfl, n1, hn1, hsim1⟩ := eval_sim hout c hec f σ σ1 env1 x pc m hc hc1 (by omega)
+    obtain ⟨rfl, rfl, n1, hn1, hsim1⟩ := eval_sim hout env henv c hec f σ σ1 env1 x pc m hc hc1 (by omega)
     by_cases ht : Sem.truthy σ1 x = true
     · rw [if_pos ht] at hex
       simp only [Prod.mk.injEq, and_true] at hex
@@ -870,7 +882,7 @@ theorem sim_ifFalse (f : Nat) (ih : ∀ c, StmtSim P F N cx f c) (c b : Card) :
       exact ⟨vs2, hr1.trans hr2 rfl, hst2, hsame1.trans hsame2, by rw [hg2, hg1]; exact hg⟩
     · rw [if_neg ht] at hex
       obtain ⟨rfl, e2, n3, hn3, hsim3⟩ :=
-        ih b hsb σ1 σ' env' (m + 5) pc' hex hc2 hsz (fun n hn => hN n (by simpa [snames] using hn))
+        ih b hsb env henv σ1 σ' env' (m + 5) pc' hex hc2 hsz (fun n hn => hN n (by simpa [snames] using hn))
       refine ⟨rfl, e2, n1 + 1 + n3, ?_, fun vs cap hst hd hg => ?_⟩
       · intro hl
         have := hn3 (by simpa [loopFree] using hl)
@@ -889,7 +901,7 @@ theorem sim_ifFalse (f : Nat) (ih : ∀ c, StmtSim P F N cx f c) (c b : Card) :
 omit hFinj hNinj in
 theorem sim_ifElse (f : Nat) (ih : ∀ c, StmtSim P F N cx f c) (c t e : Card) :
     StmtSim P F N cx (f + 1) (.tri .ifElse c t e) := by
-  intro hs σ σ' env' pc pc' hex hcode hsz hN
+  intro hs env henv σ σ' env' pc pc' hex hcode hsz hN
   simp only [isStmt, Bool.and_eq_true] at hs
   obtain ⟨⟨hec, hst_⟩, hse⟩ := hs
   rw [exec_ifElse] at hex
@@ -898,16 +910,16 @@ theorem sim_ifElse (f : Nat) (ih : ∀ c, StmtSim P F N cx f c) (c t e : Card) :
   have hlt := ecode_lt hc1
   have hle2 := scode_le hst_ hc2
   have hle3 := scode_le hse hc3
-  rcases hc : Sem.eval cx f [[]] σ c with ⟨σ1, env1, r1⟩
+  rcases hc : Sem.eval cx f env σ c with ⟨σ1, env1, r1⟩
   rw [hc] at hex
   cases r1 with
   | ok x =>
     simp only at hex
-    obtain ⟨rfl, rfl, n1, hn1, hsim1⟩ := eval_sim hout c hec f σ σ1 env1 x pc m1 hc hc1 (by omega)
+    obtain ⟨rfl, rfl, n1, hn1, hsim1⟩ := eval_sim hout env henv c hec f σ σ1 env1 x pc m1 hc hc1 (by omega)
     by_cases ht : Sem.truthy σ1 x = true
     · rw [if_pos ht] at hex
       obtain ⟨rfl, e2, n3, hn3, hsim3⟩ :=
-        ih t hst_ σ1 σ' env' (m1 + 5) m2 hex hc2 (by omega)
+        ih t hst_ env henv σ1 σ' env' (m1 + 5) m2 hex hc2 (by omega)
           (fun n hn => hN n (by simp only [snames, List.mem_append]; exact Or.inl hn))
       refine ⟨rfl, e2, n1 + 1 + n3 + 1, ?_, fun vs cap hst hd hg => ?_⟩
       · intro hl
@@ -925,7 +937,7 @@ theorem sim_ifElse (f : Nat) (ih : ∀ c, StmtSim P F N cx f c) (c t e : Card) :
           ((hsame1.trans hsame2).trans hsame3).trans hsame4, by rw [hg4]; exact hg3⟩
     · rw [if_neg ht] at hex
       obtain ⟨rfl, e2, n3, hn3, hsim3⟩ :=
-        ih e hse σ1 σ' env' (m2 + 5) pc' hex hc3 hsz
+        ih e hse env henv σ1 σ' env' (m2 + 5) pc' hex hc3 hsz
           (fun n hn => hN n (by simp only [snames, List.mem_append]; exact Or.inr hn))
       refine ⟨rfl, e2, n1 + 1 + n3, ?_, fun vs cap hst hd hg => ?_⟩
       · intro hl
@@ -946,7 +958,7 @@ theorem sim_ifElse (f : Nat) (ih : ∀ c, StmtSim P F N cx f c) (c t e : Card) :
 omit hFinj hNinj in
 theorem sim_while (f : Nat) (ih : ∀ c, StmtSim P F N cx f c) (c b : Card) :
     StmtSim P F N cx (f + 1) (.bin .while c b) := by
-  intro hs σ σ' env' pc pc' hex hcode hsz hN
+  intro hs env henv σ σ' env' pc pc' hex hcode hsz hN
   have hs0 := hs
   have hcode0 := hcode
   simp only [isStmt, Bool.and_eq_true] at hs
@@ -956,24 +968,24 @@ theorem sim_while (f : Nat) (ih : ∀ c, StmtSim P F N cx f c) (c b : Card) :
   obtain ⟨m1, m2, hc1, hop1, hrd1, hc2, hop2, hrd2, rfl⟩ := hcode
   have hlt := ecode_lt hc1
   have hle2 := scode_le hsb hc2
-  rcases hc : Sem.eval cx f [[]] σ c with ⟨σ1, env1, r1⟩
+  rcases hc : Sem.eval cx f env σ c with ⟨σ1, env1, r1⟩
   rw [hc] at hex
   cases r1 with
   | ok x =>
     simp only at hex
-    obtain ⟨rfl, rfl, n1, hn1, hsim1⟩ := eval_sim hout c hec f σ σ1 env1 x pc m1 hc hc1 (by omega)
+    obtain ⟨rfl, rfl, n1, hn1, hsim1⟩ := eval_sim hout env henv c hec f σ σ1 env1 x pc m1 hc hc1 (by omega)
     by_cases ht : Sem.truthy σ1 x = true
     · rw [if_pos ht] at hex
-      rcases hb : Sem.exec cx f [[]] σ1 b with ⟨σ2, env2, r2⟩
+      rcases hb : Sem.exec cx f ([] :: env) σ1 b with ⟨σ2, env2, r2⟩
       rw [hb] at hex
       cases r2 with
       | ok u =>
         cases u
         simp only at hex
         obtain ⟨rfl, e2, n3, hn3, hsim3⟩ :=
-          ih b hsb σ1 σ2 env2 (m1 + 5) m2 hb hc2 (by omega) (fun n hn => hN n (by simpa [snames] using hn))
+          ih b hsb ([] :: env) (noEnv_cons henv) σ1 σ2 env2 (m1 + 5) m2 hb hc2 (by omega) (fun n hn => hN n (by simpa [snames] using hn))
         obtain ⟨rfl, e5, n5, hn5, hsim5⟩ :=
-          ih (.bin .while c b) hs0 σ2 σ' env' pc (m2 + 5) hex hcode0 hsz hN
+          ih (.bin .while c b) hs0 env henv σ2 σ' env' pc (m2 + 5) hex hcode0 hsz hN
         refine ⟨rfl, by rw [e5, e2], n1 + 1 + n3 + 1 + n5, ?_, fun vs cap hst hd hg => ?_⟩
         · intro hl
           simp [loopFree] at hl
@@ -1014,7 +1026,7 @@ theorem exec_sim : ∀ (f : Nat) (c : Card), StmtSim P F N cx f c := by
   intro f
   induction f with
   | zero =>
-    intro c _ σ σ' env' pc pc' hex
+    intro c _ env henv σ σ' env' pc pc' hex
     rw [exec_zero] at hex
     simp only [Prod.mk.injEq] at hex
     obtain ⟨_, _, h⟩ := hex
@@ -1024,7 +1036,7 @@ theorem exec_sim : ∀ (f : Nat) (c : Card), StmtSim P F N cx f c := by
     cases c with
     | setGlobalVar n e => exact sim_setGlobal hout hFinj hNinj f n e
     | comment t =>
-      intro _ σ σ' env' pc pc' hex hcode _ _
+      intro _ env henv σ σ' env' pc pc' hex hcode _ _
       rw [exec_comment] at hex
       simp only [Prod.mk.injEq, and_true] at hex
       obtain ⟨rfl, rfl⟩ := hex
@@ -1033,12 +1045,12 @@ theorem exec_sim : ∀ (f : Nat) (c : Card), StmtSim P F N cx f c := by
       exact ⟨rfl, rfl, 0, fun _ => Nat.zero_le _, fun vs cap hst _ hg =>
         ⟨vs, Reach.refl _ _, hst, SameRest.refl _, hg⟩⟩
     | composite t cs =>
-      intro hs σ σ' env' pc pc' hex hcode hsz hN
+      intro hs env henv σ σ' env' pc pc' hex hcode hsz hN
       rw [exec_composite] at hex
       simp only [isStmt] at hs
       simp only [SCode] at hcode
       simp only [snames] at hN
-      have := stmts_sim ih cs hs σ σ' env' pc pc' hex hcode hsz hN
+      have := stmts_sim ih cs hs env henv σ σ' env' pc pc' hex hcode hsz hN
       simpa only [loopFree, sdepth] using this
     | tri k a b c =>
       cases k with
@@ -1319,11 +1331,11 @@ theorem exec_benign (cx : Sem.Ctx) : ∀ (fuel : Nat) (c : Card), isStmt c = tru
         | ok x =>
           simp only
           split
-          · have hb := ih b hs.2 env1 σ1
-            rcases hc2 : Sem.exec cx f env1 σ1 b with ⟨σ2, env2, r2⟩
+          · have hb := ih b hs.2 ([] :: env1) σ1
+            rcases hc2 : Sem.exec cx f ([] :: env1) σ1 b with ⟨σ2, env2, r2⟩
             rw [hc2] at hb
             cases r2 with
-            | ok u => cases u; exact ih _ hs0 env2 σ2
+            | ok u => cases u; exact ih _ hs0 env1 σ2
             | _ => first | trivial | exact hb
           · trivial
         | _ => first | trivial | exact he
@@ -1425,7 +1437,7 @@ theorem compile_correct_core (m std : Module) (limit fuel : Nat) (cfg : Config) 
   simp only at hok
   subst hok
   obtain ⟨_, hσ, n, hn, hsim⟩ := stmts_sim (P := Prog.ofProgram p) (F := p.varIds) (N := (· ∈ snamess nf.2.cards))
-    (exec_sim hout hFinj hinj fuel) nf.2.cards hfrag {} σ' env' 0 mainEnd hex hcode (Nat.le_of_lt hend)
+    (exec_sim hout hFinj hinj fuel) nf.2.cards hfrag [[]] noEnv_base {} σ' env' 0 mainEnd hex hcode (Nat.le_of_lt hend)
     (fun n hn => hn)
   refine ⟨n, fun hl => by have := hn hl; omega, fun maxInstr hmax => ?_⟩
   obtain ⟨vsK, hr, hstK, hsameK, hgK⟩ := hsim (startState cfg maxInstr) cfg.stackSize
@@ -1782,12 +1794,12 @@ theorem exec_fuel_mono (cx : Sem.Ctx) : ∀ (f : Nat) (c : Card), isStmt c = tru
           split at h
           · rename_i ht
             simp only [if_pos ht]
-            have ihb := ih b hs.2 env1 σ1
-            rcases hc2 : Sem.exec cx f env1 σ1 b with ⟨σ2, env2, r2⟩
+            have ihb := ih b hs.2 ([] :: env1) σ1
+            rcases hc2 : Sem.exec cx f ([] :: env1) σ1 b with ⟨σ2, env2, r2⟩
             rw [hc2] at h ihb
             rw [ihb (by cases r2 <;> first | exact h | exact fun x => x) k hk]
             cases r2 with
-            | ok u => cases u; simp only at h ⊢; exact ih _ hs0 env2 σ2 h k hk
+            | ok u => cases u; simp only at h ⊢; exact ih _ hs0 env1 σ2 h k hk
             | _ => rfl
           · rename_i ht; simp only [if_neg ht]
         | _ => rfl
